@@ -408,7 +408,27 @@ let run_vsock_pred_all toks =
     go (String.split_on_char ',' names)
   | _ -> failwith "vsock_pred_all: bad case"
 
+(* vsock_shift <da> <db> <dc> <tol> <case1> | <obs1> | <case2> | <obs2>
+   C09: the second run (inputs relabelled by da/db/dc) must be the first run relabelled; SKIP when either
+   trace leaves the tolerance guard (the property is claimed within it only) *)
+let run_vsock_shift toks =
+  match toks with
+  | da :: db :: dc :: tol :: rest ->
+    let (case1, r1) = split_bar [] rest in
+    let (obs1, r2) = split_bar [] r1 in
+    let (case2, obs2) = split_bar [] r2 in
+    let (_, tr1) = steps_of case1 obs1 in
+    let (_, tr2) = steps_of case2 obs2 in
+    let da = z_of_string da and db = z_of_string db and dc = z_of_string dc and tol = z_of_string tol in
+    if not (c09_within_tol tol tr1 && c09_within_tol tol tr2) then "SKIP"
+    else if c09_shift_ok da db dc tr1 tr2 then "OK"
+    else (match c09_first_bad da db dc tr1 tr2 Z0 with
+        | Some i -> "FAIL c09_shift_ok step=" ^ string_of_z i
+        | None -> "FAIL c09_shift_ok")
+  | _ -> failwith "vsock_shift: bad case"
+
 let dispatch = function
+  | "vsock_shift" :: r -> Some (run_vsock_shift r)
   | "vsock_pred" :: r -> Some (run_vsock_pred r)
   | "vsock_pred_all" :: r -> Some (run_vsock_pred_all r)
   | "vsock" :: r -> Some (run_vsock r)
